@@ -570,6 +570,52 @@ theorem container_validate_idem {fresh : Nat → U} {pre : List (PreItem N U)} {
       rw [hocc, hg]; rfl
     rw [this]; exact hidem
 
+/-- **staged histories** — a container that grows between two validations (content added to
+objects that were validated before, new flows / campaigns / triggers): whatever the previous
+validation left (`prev`, any dictionary, any counter), whatever is marked as kept, a successful
+further validation binds every (kind, name) to one real uuid on all reference objects.  (It is
+an instance of `assign_functional`, which holds for every occurrence list and every starting
+dictionary — nothing is remembered between two validations but the dictionary.) -/
+theorem stage_consistent {fresh : Nat → U} {kept : U → Bool} {prev out : Out N U}
+    {pre : List (PreItem N U)} {c : Container N U}
+    (h : runStage fresh kept prev pre c = .ok out) :
+    ∀ o₁ ∈ out.occs, ∀ o₂ ∈ out.occs, assignable o₁.site = true → assignable o₂.site = true →
+      o₁.kind = o₂.kind → o₁.name = o₂.name → o₁.given = o₂.given ∧ o₁.given.isSome = true := by
+  unfold runStage at h
+  cases hp : recordPre prev.st pre with
+  | error e => rw [hp] at h; cases h
+  | ok st =>
+    rw [hp] at h
+    simp only at h
+    exact fun o₁ h1 o₂ h2 a1 a2 hk hn => assign_functional h h1 h2 a1 a2 hk hn
+
+/-- … and an explicit uuid on an ADDED reference wins (or the validation fails): the late
+`has_group` case of a router that was validated before is recorded like any other. -/
+theorem stage_explicit_wins {fresh : Nat → U} {kept : U → Bool} {prev out : Out N U}
+    {pre : List (PreItem N U)} {c : Container N U}
+    (h : runStage fresh kept prev pre c = .ok out) :
+    ∀ e ∈ occsOf (c.settle kept prev), ∀ u, e.given = some u → uuidOf out e.kind e.name = some u := by
+  unfold runStage at h
+  cases hp : recordPre prev.st pre with
+  | error e => rw [hp] at h; cases h
+  | ok st =>
+    rw [hp] at h
+    simp only at h
+    exact fun e he u hu => explicit_wins h he hu
+
+/-- non-vacuity: a router validated with one case (group 7, invented uuid 100) gets a second
+case for group 8 with explicit uuid 3 and a third without uuid; the second validation keeps
+100, takes 3 and invents 101. -/
+example :
+    (match run (fun n => n + 100) ([] : List (PreItem Nat Nat))
+        ⟨[], [⟨1, some 5, [⟨[], [⟨7, none⟩]⟩]⟩], [], []⟩ with
+     | .ok prev =>
+       (match runStage (fun n => n + 100) (fun u => u == 0) prev []
+          ⟨[], [⟨1, some 5, [⟨[], [⟨7, some 0⟩, ⟨8, some 3⟩, ⟨9, none⟩]⟩]⟩], [], []⟩ with
+        | .ok out => out.occs.map (fun o => (o.name, o.given))
+        | .error _ => [])
+     | .error _ => []) = [(1, some 5), (7, some 100), (8, some 3), (9, some 101)] := by decide
+
 /-- `obj_id`s of rows inside an inserted block (`PreItem.scratch`) are NOT covered by the
 statement above, and cannot be: the code records them in a throw-away dictionary (known
 finding F-C06-a).  Witness: the block's `split_by_group` row gives uuid 3 to group 7, the
